@@ -240,6 +240,22 @@ Definition gitlab_srv (diffs : list gl_diff) (max_comments : nat) : platform gl_
      can_delete := fun n => match gl_view n with Some _ => true | None => false end;
      create := gl_post diffs |}.
 
+(** GitLabReporter.Summary: when there are more reports than maxComments (> 0) a general note (no position) with the
+    "too many comments" message is posted - unless a general note of pint's with that very body exists already
+    (generalComment looks for it first).  [msg] is the message text (an input: its wording is not modelled). *)
+Definition gl_is_general (msg : string) (n : gl_note) : bool :=
+  negb (gn_system n) && gn_mine n && (match gn_pos n with None => true | Some _ => false end) && String.eqb (gn_body n) msg.
+
+Definition gl_add_general (msg : string) (store : list gl_note) : list gl_note :=
+  if existsb (gl_is_general msg) store then store
+  else (store ++ [{| gn_system := false; gn_mine := true; gn_pos := None; gn_body := msg |}])%list.
+
+(** one whole GitLab reporting run: updateDestination's two loops, then Summary *)
+Definition gl_run (diffs : list gl_diff) (max_comments nreports : nat) (msg : string)
+           (store : list gl_note) (pend : list pcomment) : list gl_note * log gl_note pcomment :=
+  let '(s', lg) := step (gitlab_srv diffs max_comments) store pend in
+  (if Nat.ltb 0 max_comments && Nat.ltb max_comments nreports then gl_add_general msg s' else s', lg).
+
 (** GitHub: GithubReporter.List drops comments without a path (general comments); nothing is ever deleted. *)
 Definition gh_view (c : ecomment) : option ecomment := if String.eqb (ec_path c) "" then None else Some c.
 
